@@ -195,6 +195,34 @@ PKT = "mon/MonPacket.tla"
 EXTM = "mon/MonExt.tla"
 
 
+def c04(ctx):
+    q = ctx.quick()
+    FZ = "mon/MonFuzz.tla"
+    # the length arithmetic of the receive path is modelled in Ext.tla (splitter, object walk): in-bounds for every
+    # length attribute x message length
+    ctx.model("mc/MC_Ext.tla", "MC_Ext.cfg", workers=12)
+    ctx.sim("views", 3000 if q else 100000, FZ, "MonFuzz.cfg", subcmd="packet", batch=10**9)
+    ctx.sim("recv" if q else "recv_all", 2000 if q else 40000, FZ, "MonFuzz.cfg", subcmd="packet", batch=10**9, seed_off=1)
+    ctx.sim("fuzzloop", 220 if q else 4000, LOOP, "MonLoop_C04.cfg", seed_off=2, nontrivial=lambda s: s.get("delivered", {}).get("garbage", 0) > 0)
+    ctx.sim("ext", 300 if q else 5000, "mon/MonExt.tla", "MonExt_C14.cfg", subcmd="packet", batch=4000, seed_off=3)
+    n_inputs = 0
+    for fam in ("views", "recv", "recv_all"):
+        pth = os.path.join(WORK, "runs", "C04-%s" % fam, "b0.ndjson")
+        if os.path.exists(pth):
+            for l in open(pth):
+                try:
+                    e = json.loads(l)
+                except ValueError:
+                    continue
+                if e.get("e") == "fz":
+                    n_inputs += e.get("n", 0)
+    ctx.cov["inputs_executed"] = n_inputs
+    ctx.write_evidence("exploration", "every value of every octet of the structural prefix (outer IP, ICMP, nested IP, nested transport header, 128-octet boundary, extension tail) of 5 valid responses x truncation / extension lengths, seeded mutations and random byte strings, fed to the real Channel::recv_probe in all 12 protocol x family x extension-mode configurations; "
+                       "every accessor / iterator / Debug of 19 view types over every value of each of the first 16 octets x 70 buffer lengths from the minimum size + random buffers; mutated responses through the full stack (fuzzloop); distinct = (target, configuration or view type) with >= 1 input executed; inputs_executed is the number of inputs",
+                       assumptions=["the verdict (no panic / overflow / non-termination) necessarily comes from executing the code; the harness is built with overflow-checks = on and debug-assertions = off; iteration is capped at 4096 steps and exceeding it is reported as a panic",
+                                    "arbitrary byte strings are sampled, not enumerated; only single-octet deviations from valid responses are swept exhaustively against buffer lengths"])
+
+
 def c14(ctx):
     q = ctx.quick()
     ctx.model("mc/MC_Ext.tla", "MC_Ext.cfg", workers=12)
@@ -229,9 +257,9 @@ def c13(ctx):
                                     "for Paris datagrams outside the sampled subset the verification flag comes from the independent decoder, not from TLA"])
 
 
-PROPS = {"C14": c14, "C12": c12, "C13": c13, "C02": c02, "C11": c11, "C05": c05, "C15": c15, "C19": c19, "C07": c07, "C01": c01, "C03": c03, "C06": c06, "C08": c08, "C09": c09, "C10": c10}
+PROPS = {"C04": c04, "C14": c14, "C12": c12, "C13": c13, "C02": c02, "C11": c11, "C05": c05, "C15": c15, "C19": c19, "C07": c07, "C01": c01, "C03": c03, "C06": c06, "C08": c08, "C09": c09, "C10": c10}
 
-MONITOR_OF = {"C14": (LOOP, "MonLoop_C14.cfg"), "C12": (PKT, "MonPacket_C12.cfg"), "C13": (PKT, "MonPacket_C13.cfg"), "C02": (LOOP, "MonLoop_C02.cfg"), "C11": (LOOP, "MonLoop_C11.cfg"), "C05": (STATE, "MonState_C05.cfg"), "C15": (STATE, "MonState_C15.cfg"), "C19": (STATE, "MonState_C19.cfg"), "C07": (LOOP, "MonLoop_C07.cfg"), "C01": (LOOP, "MonLoop_C01.cfg"), "C03": (LOOP, "MonLoop_C03.cfg"), "C06": (LOOP, "MonLoop_C06.cfg"),
+MONITOR_OF = {"C04": (LOOP, "MonLoop_C04.cfg"), "C14": (LOOP, "MonLoop_C14.cfg"), "C12": (PKT, "MonPacket_C12.cfg"), "C13": (PKT, "MonPacket_C13.cfg"), "C02": (LOOP, "MonLoop_C02.cfg"), "C11": (LOOP, "MonLoop_C11.cfg"), "C05": (STATE, "MonState_C05.cfg"), "C15": (STATE, "MonState_C15.cfg"), "C19": (STATE, "MonState_C19.cfg"), "C07": (LOOP, "MonLoop_C07.cfg"), "C01": (LOOP, "MonLoop_C01.cfg"), "C03": (LOOP, "MonLoop_C03.cfg"), "C06": (LOOP, "MonLoop_C06.cfg"),
               "C08": (LOOP, "MonLoop_C08.cfg"), "C09": (LOOP, "MonLoop_C09.cfg"), "C10": (LOOP, "MonLoop_C10.cfg")}
 
 
